@@ -256,7 +256,7 @@ func correspond(sets []CaseSet) *RunStats {
 	sigs := map[string]bool{}
 	for i := 0; i < n; i++ {
 		st.Outcomes[outcomeKey(impl[i])]++
-		if impl[i] != model[i] {
+		if impl[i] != model[i] && impl[i] != "model-only" {
 			st.NMismatch++
 			if len(st.Mismatches) < 20 {
 				c := all[i]
